@@ -16,7 +16,7 @@ Require Import ZV.Model.GenShape ZV.Proofs.GenShapeProofs ZV.Model.Lexer.
 Require ZV.Model.Reader ZV.Properties.C13.
 Require Import ZV.Model.CallCheck ZV.Proofs.CallCheckProofs.
 Require Import ZV.Model.Destructure ZV.Proofs.DestructureProofs.
-Require ZV.Model.PrattTypes ZV.Model.Pratt ZV.Model.PrattShape ZV.Proofs.PrattShapeProofs ZV.Generated.InfixTable.
+Require ZV.Model.PrattTypes ZV.Model.Pratt ZV.Model.PrattShape ZV.Proofs.PrattShapeProofs ZV.Proofs.PrattFuelProofs ZV.Generated.InfixTable.
 
 Theorem gen_total : forall omacro oinfix ofile fuel xs s,
   load omacro oinfix ofile fuel xs <> RCrash s.
@@ -132,6 +132,28 @@ Theorem pratt_for_total : forall fuel ts s,
   PS.for_munch IT.infix_entries IT.infix_lbp IT.for_consts fuel ts <> PS.PCrash s.
 Proof. exact (PP.for_munch_no_crash _ _ _ PP.generated_table_safe PP.generated_guards_ok). Qed.
 Print Assumptions pratt_for_total.
+
+(* termination: with fuel linear in the weight of the token list (5 * weight + 1 per statement; what the runner
+   passes) the model never runs out of fuel, so for EVERY token list InfixExpandArray's model returns a number
+   of statements or an error - "the call returns either a value or an error" for the infix front end *)
+Module PF := ZV.Proofs.PrattFuelProofs.
+Theorem pratt_returns : forall ts, PS.expand_auto ts = PS.PErr \/ exists n, PS.expand_auto ts = PS.POk n.
+Proof. exact PF.expand_returns. Qed.
+Print Assumptions pratt_returns.
+
+Theorem pratt_returns_any_table : forall E K C, PP.table_safe E K = true -> PP.guards_ok C = true -> forall ts,
+  PS.stmts E K C (5 * PS.pws ts + 1) (S (PS.pws ts)) ts = PS.PErr \/
+  exists n, PS.stmts E K C (5 * PS.pws ts + 1) (S (PS.pws ts)) ts = PS.POk n.
+Proof. exact PF.expand_any_table_returns. Qed.
+Print Assumptions pratt_returns_any_table.
+
+Theorem generate_infix_returns : forall args,
+  PS.infix_form_auto false args = PS.PErr \/ exists n, PS.infix_form_auto false args = PS.POk n.
+Proof. exact PF.infix_form_returns. Qed.
+Print Assumptions generate_infix_returns.
+
+Example ex_pratt_auto_fuel : PS.expand_auto PP.toks_range_and_slice = PS.POk 2.
+Proof. vm_compute. reflexivity. Qed.
 
 (* generator.go GenerateInfix = InfixArgsToArray("infix", args) + InfixExpandArray: for every argument list of
    the (infix ...) form (any number and kind of arguments) and every token content, no panic site; the
